@@ -584,6 +584,16 @@ class Interp:
                         return ast.literal_eval(node0)
                 except (ValueError, TypeError, SyntaxError):
                     pass
+                if isinstance(node0, (ast.List, ast.Tuple, ast.Dict, ast.Set, ast.Lambda)) and getattr(self, '_global_depth', 0) < 3:
+                    # a module-level table (of classes, functions, lambdas): its displays are evaluated in the module that defines it
+                    m0 = r0.target[0]
+                    holder = next(iter(m0.functions.values()), None)
+                    if holder is not None:
+                        self._global_depth = getattr(self, '_global_depth', 0) + 1
+                        try:
+                            return self.ev(holder, node0, {})
+                        finally:
+                            self._global_depth -= 1
             return ('$name', e.id)          # a module-level name: resolved when called
         if isinstance(e, ast.Tuple):
             return tuple(self.ev(f, x, env) for x in e.elts)
@@ -889,6 +899,25 @@ class Interp:
                     raise Raised('error')
                 except TypeError:
                     raise Raised('TypeError')
+            if short in ('setattr', 'getattr', 'hasattr') and name == short and args and isinstance(args[0], Obj) and len(args) >= 2 and isinstance(args[1], str) and not kwargs:
+                o0, a0 = args[0], args[1]
+                if short == 'setattr' and len(args) == 3:
+                    o0._f[a0] = args[2]
+                    return None
+                if short == 'hasattr' and len(args) == 2:
+                    return a0 in o0._f or self._dunder(o0, a0) is not None
+                if short == 'getattr' and a0 in o0._f:
+                    return o0._f[a0]
+                if short == 'getattr' and self._dunder(o0, a0) is not None:
+                    return ('$method', o0, a0)
+                if short == 'getattr' and len(args) == 3:
+                    return args[2]
+                if short == 'getattr':
+                    ex0 = Raised('AttributeError', a0)
+                    ex0.certain = True
+                    raise ex0
+            if name in ('collections.Counter', 'Counter') and len(args) <= 1 and not kwargs and (name != 'Counter' or f.module.imports.get('Counter') == ('symbol', 'collections', 'Counter')):
+                return _collections.Counter(list(self.iterate(args[0]))) if args else _collections.Counter()
             if name in ('collections.deque', 'deque') and len(args) <= 1 and not kwargs and (name != 'deque' or f.module.imports.get('deque') == ('symbol', 'collections', 'deque')):
                 return _collections.deque(list(self.iterate(args[0]))) if args else _collections.deque()
             if name in ('io.StringIO', 'StringIO') and not args and not kwargs:
@@ -1092,6 +1121,9 @@ class Interp:
         node = cl.node
         names = [x.arg for x in node.args.args]
         env = dict(cl.env)
+        if node.args.vararg is not None:
+            env[node.args.vararg.arg] = tuple(args[len(names):])
+            args = args[:len(names)]
         if len(args) > len(names):
             raise Unsupported('closure arity')
         defaults = dict(zip(names[len(names) - len(node.args.defaults):], node.args.defaults))
